@@ -323,7 +323,10 @@ func C09(c *core.Ctx) {
 	}
 	var jobs []job
 	for ci, cfg := range cfgs {
-		for _, mode := range []string{"end", "manifest"} {
+		for _, mode := range []string{"end", "manifest", "manifest-compaction"} {
+			if mode == "manifest-compaction" && ci > 1 {
+				continue
+			}
 			s, sp := newCrashSpec(c, work, cfg, 0, fmt.Sprintf("img-%d-%s", ci, mode))
 			s.MemTable = 24 << 10
 			if mode == "manifest" {
@@ -331,10 +334,21 @@ func C09(c *core.Ctx) {
 				s.KillAt = int64(2 + ci)
 				s.MemTable = 8 << 10 // enough flushes for the chosen append to happen in every configuration
 			}
+			if mode == "manifest-compaction" {
+				// killed right after a compaction appended its change set (inputs not yet deleted) while
+				// the MANIFEST is rewritten every few ms: the file before the record is short, the record
+				// (several deletes and creates) long - where it is longer than everything before it, the
+				// torn record announces more bytes than the whole cut file has
+				s.KillClass = "pt.compact.afterManifest"
+				s.KillAt = int64(1 + ci)
+				s.MemTable = 8 << 10
+				s.ManifestRewrite = 2
+				s.Compactors = 2
+			}
 			writeSpec(s, sp)
 			out, timedOut, _ := runChild(120*time.Second, nil, c.ID, "--child-crash", sp)
 			si := parseSideLog(s.SideLog)
-			if timedOut || (mode == "end" && !si.ended) || (mode == "manifest" && si.killed == "") {
+			if timedOut || (mode == "end" && !si.ended) || (mode != "end" && si.killed == "") {
 				c.Inconclusive(fmt.Sprintf("image run %s/%s did not reach its end: %s", cfg.name, mode, tailStr(out, 300)))
 				continue
 			}
@@ -421,6 +435,11 @@ func C09(c *core.Ctx) {
 				c.Count("torn.manifest_records_parsed", int64(len(recs)))
 				if len(recs) > 0 {
 					last := recs[len(recs)-1]
+					c.Set(fmt.Sprintf("manifest_image_%d_%s", ci, mode), map[string]any{"records": len(recs), "last_record_offset": last.Off, "last_record_end": last.End,
+						"announced_length_exceeds_cut_file_for_some_cut": last.End-last.Off-8 > last.Off+8})
+					if last.End-last.Off-8 > last.Off+8 {
+						c.Count("torn.manifest_images_whose_last_record_is_longer_than_the_file_before_it", 1)
+					}
 					if last.End != int64(len(b)) {
 						c.Inconclusive("MANIFEST does not end at a record boundary in the undamaged image")
 					}
